@@ -1445,6 +1445,13 @@ TRUSTED = [
     "interface hypotheses key_sound / key_complete / accepts about filter_args + hashing.hash (models M2, M3: "
     "C07 / C08); validated here empirically on every generated call (real _get_args_id partition vs "
     "inspect.signature.bind partition), refuted on the shapes of findings F1-F3",
+    "composition M2 o M3 (Model/MemoryKey.v, Proofs/MemoryKey*.v): on b-c07's fragment sig_in_fragment, key_complete and "
+    "accepts are PROVED (C06_complete_fragment, C06_accepts_fragment) and key_sound is PROVED (C02_sound_fragment) from "
+    "these remaining hypotheses: md5 has no collision on the streams that occur; the value bridge vmap/nmap is "
+    "faithful (distinct names spelled differently, distinct abstract values denote Python values that differ by more "
+    "than dict/set iteration order, all in C08's universe); the canonical dicts that occur are good and fit the "
+    "protocol fields (C08's injective sub-universe). Stage 'composed key' evaluates that key with the RFC 1321 md5 of "
+    "Base/C08_MD5.v and compares it with the real _get_args_id",
     "the user function is pure and ignores the parameters it asks joblib to ignore (f_respects)",
     "pickling/compression of values is the identity at this level (C03/C13); one function identifier; "
     "versions sharing a file start at the same line; no concurrency (C11) and no crashes (C05)",
@@ -1612,6 +1619,11 @@ def run_property(ctx, prop):
         d, sc = lst[0]
         ctx.violation("%d generated deviations of this shape, e.g. %s: %s" % (len(lst), d["kind"], d["what"]),
                       {"scenario": strip(sc), "event": d["event"]}, True, finding_key=key)
+    # ---- composed key: M2 o M3 o md5 (Model/MemoryKey.v) against the real _get_args_id
+    key_cov = {}
+    if prop in ("C02", "C06"):
+        import c02_key_stage
+        key_cov = c02_key_stage.stage(ctx, scs, ress)
     # ---- coverage
     n_events = sum(len(sc["events"]) for sc in scs)
     hits = misses = 0
@@ -1653,6 +1665,7 @@ def run_property(ctx, prop):
         "proofs_ok": proofs_ok,
         "trusted_base": TRUSTED,
         "exhaustive": False,
+        **key_cov,
     }
 
 
